@@ -13,9 +13,19 @@ def frontOp? (name : String) (ws : List String) : Option FrontOp :=
   | "send", [] => some .send
   | _, _ => none
 
+/-- `s:<hex>` send, `f:<hex>` feed, `e` end session -/
+def act? (t : String) : Option Act :=
+  if t == "e" then some .endS
+  else if t.startsWith "s:" then (bytesOfHex (t.drop 2).toString).map .send
+  else if t.startsWith "f:" then (bytesOfHex (t.drop 2).toString).map .feed
+  else none
+
 def parseOp (ws : List String) : Option Op :=
   match ws with
   | ["sel", k] => do pure (.sel (← k.toNat?))
+  | ["depth", n] => do pure (.depth (← n.toNat?))
+  | "mkfunc" :: acts => do
+      if acts.length > 6 then none else pure (.mkfunc (← acts.mapM act?))
   | ["open", n] => do pure (.openS (← n.toNat?))
   | ["recv", d] => do pure (.recv (← bytesOfHex d))
   | ["pass"] => some .pass
@@ -30,7 +40,6 @@ def parseOp (ws : List String) : Option Op :=
   | ["srecv", d] => do pure (.srecv (← bytesOfHex d))
   | ["sstop"] => some .sstop
   | ["mkdir"] => some .mkdir
-  | ["mkfunc"] => some .mkfunc
   | ["mount", p, c, n] => do pure (.mount (← p.toNat?) (← c.toNat?) (← bytesOfHex n))
   | ["umount", p, n] => do pure (.umount (← p.toNat?) (← bytesOfHex n))
   | ["rmnode", i] => do pure (.rmnode (← i.toNat?))
